@@ -134,6 +134,13 @@ def cases(tier, seed):
         out.append(dict(kind="history", model=model, seed=int(rng.integers(1 << 30)), npoints=int(rng.integers(3, 5)), length=int(rng.integers(8, 16 if tier == "quick" else 78)),
                         force_wingbox_sym=bool(k == 1),
                         _cost={"aero": 6, "as": 14, "struct": 5, "multipoint": 25}[model]))
+    # component-level histories: every component of a generated model, alone, taken from its captured point to special-valued points
+    # (one input at a time all zeros / all ones / its declared default) and back, against a fresh instance at the same inputs
+    n = 8 if tier == "quick" else 120
+    for k in range(n):
+        model = ["aero", "as", "struct", "as"][k % 4]
+        out.append(dict(kind="comp_history", model=model, seed=int(rng.integers(1 << 30)), npoints=2, length=0, force_wingbox_sym=bool(k % 8 == 1),
+                        _cost={"aero": 8, "as": 20, "struct": 6}[model]))
     return out
 
 
@@ -428,9 +435,86 @@ def run_history(c, o):
     o.nontrivial = bool(len(visited) >= 2 and nobs >= 3)
 
 
+def run_comp_history(c, o):
+    """outputs of a component are a function of its current inputs only: an instance that has already been evaluated elsewhere gives,
+    at special-valued inputs (where shortcuts and early returns live), what a fresh instance gives there, and returns to its first
+    answer afterwards"""
+    from .. import diff
+
+    rng = np.random.default_rng(c["seed"] + 3)
+    kind, case, pts, _of, _wrt = gen(c)
+    if kind == "aero" and c["seed"] % 2 == 0:
+        case["rotational"] = True
+        case["flow"]["omega"] = [float(x) for x in np.round(rng.uniform(-0.3, 0.3, 3), 3)]
+    prob = build(kind, case)
+    set_point(prob, pts[0])
+    zoo.run(prob)
+    evs = diff.capture(prob)
+    tags = [c["model"], kind, "component_history"]
+    ncomp = 0
+    for ev in evs:
+        name = ev["cls"].__name__
+        X1 = ev["inputs"]
+        if not X1:
+            continue
+        try:
+            live = diff.replay_problem(ev["cls"], ev["opts"], X1, ev["outputs"])
+        except Exception:  # noqa: BLE001
+            continue
+        comp = live.model.c
+        out1 = {n: np.array(comp._outputs[n]).copy() for n in comp._outputs}
+        ncomp += 1
+        names = list(X1)
+        if len(names) > 10:
+            names = [names[i] for i in sorted(rng.choice(len(names), 10, replace=False))]
+        for n in names:
+            meta = comp._var_rel2meta.get(n, {})
+            dflt = np.broadcast_to(np.asarray(meta.get("val", 0.0), float), X1[n].shape) if meta else np.zeros_like(X1[n])
+            for label, sv in (("zeros", np.zeros_like(X1[n])), ("ones", np.ones_like(X1[n])), ("default", np.array(dflt, float))):
+                if np.array_equal(sv, X1[n]):
+                    continue
+                X2 = dict(X1)
+                X2[n] = sv
+                try:
+                    with np.errstate(all="ignore"):
+                        fresh = diff.replay_problem(ev["cls"], ev["opts"], X2, ev["outputs"])
+                    fout = {q: np.array(fresh.model.c._outputs[q]).copy() for q in fresh.model.c._outputs}
+                except Exception:  # noqa: BLE001  (a special value the component legitimately cannot take, e.g. a singular matrix)
+                    o.count("special_points_rejected_by_fresh_instance")
+                    continue
+                if not all(np.all(np.isfinite(v)) for v in fout.values()):
+                    o.count("special_points_not_finite_on_fresh_instance")
+                    continue
+                try:
+                    with np.errstate(all="ignore"):
+                        diff.reset_inputs(live, X2, ev["outputs"])
+                except Exception as e:  # noqa: BLE001
+                    o.violate("comp_hist/special_point", "%s raised at %s=%s after a previous evaluation although a fresh instance evaluates there: %s: %s" % (name, n, label, type(e).__name__, str(e)[:120]),
+                              tags=tags + ["class=" + name, "input=" + n, label])
+                    live = diff.replay_problem(ev["cls"], ev["opts"], X1, ev["outputs"])
+                    comp = live.model.c
+                    continue
+                for q, v in fout.items():
+                    sc = max(float(np.abs(v).max()), float(np.abs(out1[q]).max()), 1e-300)
+                    o.close("comp_hist/special_point", np.array(comp._outputs[q], float), v, rtol=1e-12, scale=sc, tags=tags + ["class=" + name, "input=" + n, label],
+                            what="%s.%s at %s=%s reached from the captured point vs a fresh instance" % (name, q, n, label), key=q, component=name)
+                # ... and back
+                diff.reset_inputs(live, X1, ev["outputs"])
+                for q, v in out1.items():
+                    sc = max(float(np.abs(v).max()), 1e-300)
+                    o.close("comp_hist/return", np.array(comp._outputs[q], float), v, rtol=1e-12, scale=sc, tags=tags + ["class=" + name, "input=" + n, label],
+                            what="%s.%s back at the captured point after %s=%s" % (name, q, n, label), key=q, component=name)
+                o.count("component_special_point_round_trips")
+    o.count("components_taken_through_histories", ncomp)
+    o.nontrivial = ncomp > 0
+
+
 def run_case(c):
     o = Obs()
-    run_history(c, o)
+    if c["kind"] == "comp_history":
+        run_comp_history(c, o)
+    else:
+        run_history(c, o)
     return o
 
 
